@@ -430,7 +430,20 @@ def F4_order_gfa_orientation_single_scaffold():
     return not bad, "; ".join(bad) or "BO increases with reference offset for hash seeds 0..7"
 
 
-ALL = {k: v for k, v in list(globals().items()) if k[0] == "F" and k[1].isdigit() and callable(v)}
+def _safe(fn):
+    """a regression replay that raises (e.g. because the tool under test did not write its output) is a FAILED replay, never a crash of the check"""
+    def w():
+        try:
+            return fn()
+        except KeyboardInterrupt:
+            raise
+        except BaseException as e:  # noqa
+            return False, "raised %s: %s" % (type(e).__name__, str(e)[:300])
+    w.__name__, w.__doc__ = fn.__name__, fn.__doc__
+    return w
+
+
+ALL = {k: _safe(v) for k, v in list(globals().items()) if k[0] == "F" and k[1].isdigit() and callable(v)}
 
 OWNER = {"F1": ["C03"], "F2a": ["C04"], "F2b": ["C04"], "F3a": ["C05"], "F3b": ["C05"], "F3c": ["C05"], "F4": ["C06"],
          "F5": ["C07"], "F6": ["C08"], "F7": ["C10"], "F8": ["C11", "C13"], "F8b": ["C11", "C13"], "F9a": ["C16"], "F9b": ["C16"],
